@@ -39,8 +39,8 @@ impl<B: Backend> Noise<B> {
             wrong = Secrets::gen_for::<B>(&mut rng);
         }
         wrong.pass = b"not the password".to_vec();
-        let local_token = kl.seal(b"noise", b"f", b"").expect("seal");
-        let public_token = kp.seal(b"noise", b"f", b"").expect("sign");
+        let local_token = kl.seal(b"noise", b"f", b"").unwrap_or_else(|e| fatal(B::NAME, &format!("seal-error:{}", err_kind(&e)), serde_json::json!({"where": "noise fixture"})));
+        let public_token = kp.seal(b"noise", b"f", b"").unwrap_or_else(|e| fatal(B::NAME, &format!("sign-error:{}", err_kind(&e)), serde_json::json!({"where": "noise fixture"})));
         let mut blobs = vec![];
         for &kind in WKS {
             let key_raw = gen_wrapped_key::<B>(kind, &mut rng);
